@@ -114,11 +114,13 @@ theorem mirror (cfg : Cfg) (s : St) (news : List Rule) (idx : Nat) (vals : List 
           { s with alog := s.alog ++ [ACall.updateFiltered news idx vals],
                    store := applyACall s.store s.pol (ACall.updateFiltered news idx vals),
                    pol := s.pol.set .p (news.foldl (fun acc r => (Spec.add acc r).1) (s.pol.p.filter (fun r => !Spec.matchesFilter idx vals r))),
-                   wlog := s.wlog ++ [.update] }
+                   wlog := s.wlog ++ [.update],
+                   ev := s.ev ++ [.adapter (ACall.updateFiltered news idx vals)] ++ [.watcher .update] }
          else
           { s with alog := s.alog ++ [ACall.updateFiltered news idx vals],
                    store := applyACall s.store s.pol (ACall.updateFiltered news idx vals),
-                   pol := s.pol.set .p (news.foldl (fun acc r => (Spec.add acc r).1) (s.pol.p.filter (fun r => !Spec.matchesFilter idx vals r))) },
+                   pol := s.pol.set .p (news.foldl (fun acc r => (Spec.add acc r).1) (s.pol.p.filter (fun r => !Spec.matchesFilter idx vals r))),
+                   ev := s.ev ++ [.adapter (ACall.updateFiltered news idx vals)] },
          .ok (.bool true)) := by
       unfold updateFilteredStep
       rw [hg]
